@@ -179,7 +179,7 @@ def check_netlist(ctx, i, rng, n, st, phase):
     """All start points of one netlist state; returns None after a violation / discard, else (fingerprint, nontrivial, sample)."""
     hwires = list(sdn.get_hwires(n, recursive=True))
     hpins = list(sdn.get_hpins(n, recursive=True))
-    if len(hwires) + len(hpins) > 6000:
+    if len(hwires) + len(hpins) > 3500:
         ctx.count("discarded_too_large")
         return None
     uf = UFD()
